@@ -306,6 +306,10 @@ def label_positions(var, indexers, node):
             raise AbsRaise(ExcVal('KeyError', (f'no index found for coordinate {dim}',)), node)
         if not isinstance(sl, slice):
             raise AnalysisError('.sel with a non-slice indexer not modelled', node)
+        for b in (sl.start, sl.stop):
+            ob = as_operand(b) if b is not None else None
+            if b is not None and (ob is None or not X.is_num(ob[1])):
+                raise AnalysisError('.sel with a slice bound that is not a concrete label (NaT / symbolic) not modelled', node)
         lo = as_operand(sl.start)[1][1] if sl.start is not None else None
         hi = as_operand(sl.stop)[1][1] if sl.stop is not None else None
         labs = [None if e.d == X.NAN else e.d[1] for e in coord.values.els()]
